@@ -467,13 +467,13 @@ class Parser:
         return node
 
     def ensure_real(self, number: TokenInfo) -> float | int:
-        value = ast.literal_eval(number.string)
+        value = self._literal_eval(number)
         if not isinstance(value, float | int):
             self.raise_syntax_error_known_location("real number required in complex literal", number)
         return value
 
     def ensure_imaginary(self, number: TokenInfo) -> complex:
-        value = ast.literal_eval(number.string)
+        value = self._literal_eval(number)
         if not isinstance(value, complex):
             self.raise_syntax_error_known_location("imaginary number required in complex literal", number)
         return value
@@ -488,10 +488,16 @@ class Parser:
 
         return s.encode()[0]
 
+    def _literal_eval(self, token: TokenInfo) -> Any:
+        try:
+            return ast.literal_eval(token.string)
+        except SyntaxError as e:  # report the error at the literal's place in the source
+            self.raise_syntax_error_known_location(e.msg, token)
+
     def _concat_strings_in_constant(self, parts: list[TokenInfo]) -> ast.Constant:
-        s = ast.literal_eval(parts[0].string)
+        s = self._literal_eval(parts[0])
         for ss in parts[1:]:
-            s += ast.literal_eval(ss.string)
+            s += self._literal_eval(ss)
         args = {
             "value": s,
             "lineno": parts[0].start[0],
